@@ -253,7 +253,8 @@ func (s *c10seq) state() string {
 			c10raw(a.CollateralTokenOraclePrice), c10raw(a.DebtTokenOraclePrice), a.StartTime.Unix(), a.EndTime.Unix())
 	}
 	net := "0"
-	if nf, found := s.f.app.CollectorKeeper.GetNetFeeCollectedData(s.ctx, s.f.appID, s.p.coll.id); found {
+	// the penalty arrives at the collector in the debt denom and is recorded under the debt asset (since d8b6c2e, D34)
+	if nf, found := s.f.app.CollectorKeeper.GetNetFeeCollectedData(s.ctx, s.f.appID, s.p.debt.id); found {
 		net = nf.NetFeesCollected.String()
 	}
 	ext := "0"
